@@ -111,7 +111,7 @@ def _run(nc, steps, order):
                     ctxs.append(llogging.disabled)
                 if c == 3:
                     ctxs.append(labrea.cache.disabled)
-                if order:
+                if len(ctxs) == 2 and order:          # nesting order only matters when both are context managers
                     ctxs.reverse()
                 for mk in ctxs:
                     stack.enter_context(mk())
@@ -173,19 +173,28 @@ def _run(nc, steps, order):
         llogging.logging = real_logging
 
 
-@harness("C16", lemma="switches-2", cubes={"nc": [False, True], "c1": [0, 1, 2, 3], "e1": [0, 1, 2]}, stubs=("S1",),
-         pre=["0 <= c0 <= 3", "0 <= e0 <= 2", "0 <= l0 <= 2", "0 <= l1 <= 2"],
-         example=dict(nc=False, c0=0, e0=0, l0=0, c1=3, e1=2, l1=2, a0=1, b0=2, a1=1, b1=2, order=True), timeout=600,
-         bounds="history of 2 evaluations on one long-lived graph outer(inner(A), B) (inner cached or nocache), each under any of the "
-                "4 x 3 x 3 switch settings (cache: " + "/".join(CACHE.values()) + "; effects: " + "/".join(EFFECTS.values()) +
-                "; logging: " + "/".join(LOGGING.values()) + "), both nesting orders of the two context managers; option values "
-                "unbounded ints (equal or different between the evaluations); real MemoryCache with a call log; stub S1",
-         what="every evaluation returns the switch-free value; with caching disabled both bodies run again and the stores see no "
-              "call; otherwise bodies run exactly when the model store misses; effects run once per body run of their dataset "
-              "unless disabled (option: all; toggle: that dataset only) and never on a hit; with logging disabled nothing reaches "
-              "the logger, otherwise exactly one INFO request per dataset not served from its cache")
-def switches2(nc: bool, c0: int, e0: int, l0: int, c1: int, e1: int, l1: int, a0: int, b0: int, a1: int, b1: int, order: bool) -> int:
-    return _run(nc, [(c0, e0, l0, a0, b0), (c1, e1, l1, a1, b1)], order)
+_B2 = ("history of 2 evaluations on one long-lived graph outer(inner(A), B), each under any switch setting (cache: " + "/".join(CACHE.values()) +
+       "; effects: " + "/".join(EFFECTS.values()) + "; logging: " + "/".join(LOGGING.values()) + "), both nesting orders of the two context "
+       "managers; A equal or different between the evaluations (unbounded ints); real MemoryCache with a call log; stub S1")
+_W2 = ("every evaluation returns the switch-free value; with caching disabled both bodies run again and the stores see no "
+       "call; otherwise bodies run exactly when the model store misses; effects run once per body run of their dataset "
+       "unless disabled (option: all; toggle: that dataset only) and never on a hit; with logging disabled nothing reaches "
+       "the logger, otherwise exactly one INFO request per dataset not served from its cache")
+
+
+@harness("C16", lemma="switches-2", cubes={"c1": [0, 1, 2, 3], "e1": [0, 1, 2]}, stubs=("S1",), pre=["0 <= c0 <= 3", "0 <= e0 <= 2", "0 <= l1 <= 2"],
+         example=dict(c0=0, e0=0, c1=3, e1=2, l1=2, a0=1, b0=2, a1=1, order=True), timeout=900,
+         bounds="inner dataset cached; first evaluation: any cache and effects setting (logging on); second: any of the 4 x 3 x 3 settings; " + _B2,
+         what=_W2)
+def switches2(c0: int, e0: int, c1: int, e1: int, l1: int, a0: int, b0: int, a1: int, order: bool) -> int:
+    return _run(False, [(c0, e0, 0, a0, b0), (c1, e1, l1, a1, b0)], order)
+
+
+@harness("C16", lemma="switches-2-nocache", cubes={"c1": [0, 1, 3], "e1": [0, 2]}, stubs=("S1",), pre=["0 <= c0 <= 3", "0 <= e0 <= 2", "0 <= l1 <= 2"],
+         example=dict(c0=0, e0=0, c1=3, e1=2, l1=2, a0=1, b0=2, a1=1, order=True), timeout=900,
+         bounds="inner dataset defined with dataset.nocache; second evaluation over 3 x 2 x 3 settings; " + _B2, what=_W2)
+def switches2_nocache(c0: int, e0: int, c1: int, e1: int, l1: int, a0: int, b0: int, a1: int, order: bool) -> int:
+    return _run(True, [(c0, e0, 0, a0, b0), (c1, e1, l1, a1, b0)], order)
 
 
 @harness("C16", lemma="switches-3", cubes={"nc": [False, True], "c0": [0, 1, 2, 3], "c1": [0, 1, 2, 3], "c2": [0, 1, 2, 3], "e2": [0, 1, 2]},
